@@ -898,7 +898,11 @@ func packagesFor(prop string) []string {
 
 // solveSplit proves a conjunctive goal conjunct by conjunct (smaller, more stable queries).
 func solveSplit(q *Query, timeoutS int) SolverResult {
-	if q.Goal == nil || q.IsCover || !(q.Goal.Kind == KApp && q.Goal.Op == "and") || len(q.Goal.Args) > 12 {
+	if q.Goal == nil || q.IsCover {
+		return Solve(q, timeoutS, false)
+	}
+	pieces := splitGoal(q.Goal)
+	if len(pieces) < 2 || len(pieces) > 24 {
 		return Solve(q, timeoutS, false)
 	}
 	// first try the whole goal quickly
@@ -909,7 +913,7 @@ func solveSplit(q *Query, timeoutS int) SolverResult {
 	var total SolverResult
 	total.Verdict = "unsat"
 	total.All = map[string]string{}
-	for i, c := range q.Goal.Args {
+	for i, c := range pieces {
 		sub := &Query{Name: fmt.Sprintf("%s [conjunct %d]", q.Name, i), Axioms: q.Axioms, Hyps: q.Hyps, Goal: c}
 		r := Solve(sub, timeoutS, false)
 		total.TimeS += r.TimeS
@@ -921,6 +925,25 @@ func solveSplit(q *Query, timeoutS int) SolverResult {
 		}
 	}
 	return total
+}
+
+// splitGoal: "A and B" into its conjuncts, "A ==> (B and C)" into "A ==> B", "A ==> C" (equivalent as a set).
+func splitGoal(t *Term) []*Term {
+	if t.Kind == KApp && t.Op == "and" {
+		var out []*Term
+		for _, a := range t.Args {
+			out = append(out, splitGoal(a)...)
+		}
+		return out
+	}
+	if t.Kind == KApp && t.Op == "=>" && len(t.Args) == 2 {
+		var out []*Term
+		for _, b := range splitGoal(t.Args[1]) {
+			out = append(out, Implies(t.Args[0], b))
+		}
+		return out
+	}
+	return []*Term{t}
 }
 
 var axMu sync.Mutex
